@@ -58,6 +58,10 @@ pub struct PreState {
     /// pass the output path as an absolute path
     pub absolute: bool,
     pub trailing_slash: bool,
+    /// put the output directory on another file system than the scratch root and the system
+    /// temp directory (/dev/shm, a tmpfs), always passed as an absolute path
+    #[serde(default)]
+    pub other_fs: bool,
 }
 
 #[derive(Clone, Debug, PartialEq, Eq, Serialize, Deserialize)]
@@ -240,6 +244,14 @@ fn gen_invocation(r: &mut Rng, names: Option<(String, String)>) -> Invocation {
             if inv.cert_file_name.as_deref() == Some("root-ca") && inv.ca_file_name.is_none() {
                 inv.cert_file_name = Some("leaf".into());
             }
+            // distinct names that differ only in letter case (distinct files on this file system)
+            if r.chance(1, 10) {
+                let base = inv.cert_base();
+                let flipped: String = base.chars().map(|c| if c.is_ascii_lowercase() { c.to_ascii_uppercase() } else { c.to_ascii_lowercase() }).collect();
+                if flipped != base {
+                    inv.ca_file_name = Some(flipped);
+                }
+            }
         }
     }
     inv
@@ -335,7 +347,14 @@ impl Engine for CliSim {
         } else {
             vec![]
         };
-        let pre = PreState { out_rel: out_rel.join("/"), exists, unrelated, absolute: r.bool(), trailing_slash: r.chance(1, 4) };
+        let pre = PreState {
+            out_rel: out_rel.join("/"),
+            exists,
+            unrelated,
+            absolute: r.bool(),
+            trailing_slash: r.chance(1, 4),
+            other_fs: r.chance(1, 6) && std::path::Path::new("/dev/shm").is_dir(),
+        };
         let n_inv = *r.pick(&[1usize, 1, 1, 2, 2, 3]);
         let mut invocations: Vec<Invocation> = Vec::new();
         for k in 0..n_inv {
@@ -461,9 +480,9 @@ impl Engine for CliSim {
             c.twice = false;
             v.push(c);
         }
-        if t.pre.exists || !t.pre.unrelated.is_empty() || t.pre.absolute || t.pre.trailing_slash || t.pre.out_rel != "out" {
+        if t.pre.exists || !t.pre.unrelated.is_empty() || t.pre.absolute || t.pre.trailing_slash || t.pre.other_fs || t.pre.out_rel != "out" {
             let mut c = t.clone();
-            c.pre = PreState { out_rel: "out".into(), exists: false, unrelated: vec![], absolute: false, trailing_slash: false };
+            c.pre = PreState { out_rel: "out".into(), exists: false, unrelated: vec![], absolute: false, trailing_slash: false, other_fs: false };
             v.push(c);
             let mut c = t.clone();
             c.pre.unrelated.clear();
@@ -545,7 +564,14 @@ fn scenario(t: &CliTrace, fault: Option<&(usize, Fault)>, o: &mut Outcome, label
     let root = scratch_root().join(format!("run-{}-{}", std::process::id(), n));
     let _ = std::fs::remove_dir_all(&root);
     std::fs::create_dir_all(&root).expect("scratch root");
-    let out_dir = root.join(&t.pre.out_rel);
+    let shm_root = PathBuf::from(format!("/dev/shm/clisim-{}-{}", std::process::id(), n));
+    let out_dir = if t.pre.other_fs {
+        let _ = std::fs::remove_dir_all(&shm_root);
+        std::fs::create_dir_all(&shm_root).expect("scratch on /dev/shm");
+        shm_root.join(&t.pre.out_rel)
+    } else {
+        root.join(&t.pre.out_rel)
+    };
     if t.pre.exists {
         std::fs::create_dir_all(&out_dir).expect("pre-state dir");
         for (name, content) in &t.pre.unrelated {
@@ -577,7 +603,7 @@ fn scenario(t: &CliTrace, fault: Option<&(usize, Fault)>, o: &mut Outcome, label
         // residue of an earlier fault (a target that is a directory or a symlink to /dev/full)
         // makes this invocation a faulted one too
         let residue = inv.files().iter().any(|f| matches!(before.get(f).map(|s| s.as_str()), Some("dir") | Some("symlink")));
-        let mut out_arg = if t.pre.absolute { out_dir.to_string_lossy().to_string() } else { t.pre.out_rel.clone() };
+        let mut out_arg = if t.pre.absolute || t.pre.other_fs { out_dir.to_string_lossy().to_string() } else { t.pre.out_rel.clone() };
         if t.pre.trailing_slash {
             out_arg.push('/');
         }
@@ -644,6 +670,9 @@ fn scenario(t: &CliTrace, fault: Option<&(usize, Fault)>, o: &mut Outcome, label
         res.final_snapshot = after;
     }
     let _ = std::fs::remove_dir_all(&root);
+    if t.pre.other_fs {
+        let _ = std::fs::remove_dir_all(&shm_root);
+    }
     res
 }
 
